@@ -311,64 +311,81 @@ func driverMain(args []string) int {
 		crash *workerViolation
 		err   string
 	}
-	outs := make([]wout, nw)
-	var wg sync.WaitGroup
-	for w := 0; w < nw; w++ {
-		wg.Add(1)
-		go func(w int) {
-			defer wg.Done()
-			outs[w] = wout{}
-			merged := &workerResult{Worker: w, Stats: simkit.NewStats(), MismatchRun: -1}
-			distinct := map[uint64]struct{}{}
-			states := map[uint64]struct{}{}
-			first := int64(0)
-			for {
-				limit := runs
-				if cfg.RunsPerProc > 0 {
-					if l := first + int64(cfg.RunsPerProc*nw); l < limit {
-						limit = l
+	runPhase := func(bin string, raceBin bool, runs int64) []wout {
+		outs := make([]wout, nw)
+		var wg sync.WaitGroup
+		for w := 0; w < nw; w++ {
+			wg.Add(1)
+			go func(w int) {
+				defer wg.Done()
+				outs[w] = wout{}
+				merged := &workerResult{Worker: w, Stats: simkit.NewStats(), MismatchRun: -1}
+				distinct := map[uint64]struct{}{}
+				states := map[uint64]struct{}{}
+				first := int64(0)
+				for {
+					limit := runs
+					if cfg.RunsPerProc > 0 {
+						if l := first + int64(cfg.RunsPerProc*nw); l < limit {
+							limit = l
+						}
 					}
-				}
-				pf := filepath.Join(tmpDir, fmt.Sprintf("w%d.progress", w))
-				wa := []string{"worker", "-prop", prop, "-seed", fmt.Sprint(seed), "-w", fmt.Sprint(w), "-nw", fmt.Sprint(nw),
-					"-runs", fmt.Sprint(limit), "-first", fmt.Sprint(first), "-deadline", fmt.Sprint(deadline), "-progress", pf,
-					"-out", outDir, "-skip", strings.Join(skip, ",")}
-				if tier == "thorough" {
-					wa = append(wa, "-thorough")
-				}
-				if !cfg.Race {
-					wa = append(wa, "-aslimit", fmt.Sprint(uint64(24)<<30))
-				}
-				r := runChild(time.Duration(capS+400)*time.Second, bin, wa...)
-				var res workerResult
-				if r.exit == 0 && json.Unmarshal(r.stdout, &res) == nil && res.Stats != nil {
-					mergeResult(merged, &res, distinct, states)
-				} else {
-					kind, site := crashKind(r)
-					run, ok := readProgress(pf)
-					if kind == "" || !ok {
-						outs[w].err = fmt.Sprintf("worker %d: exit %d, no attributable crash\nstderr: %s\nstdout: %s", w, r.exit, tailStr(r.stderr, 3000), headStr(r.stdout, 500))
-						return
+					pf := filepath.Join(tmpDir, fmt.Sprintf("w%d.progress", w))
+					wa := []string{"worker", "-prop", prop, "-seed", fmt.Sprint(seed), "-w", fmt.Sprint(w), "-nw", fmt.Sprint(nw),
+						"-runs", fmt.Sprint(limit), "-first", fmt.Sprint(first), "-deadline", fmt.Sprint(deadline), "-progress", pf,
+						"-out", outDir, "-skip", strings.Join(skip, ",")}
+					if tier == "thorough" {
+						wa = append(wa, "-thorough")
 					}
-					v := &simkit.Violation{Kind: kind, Site: site, Detail: tailStr(r.stderr, 2500)}
-					rf := &ReplayFile{Property: prop, VerifSeed: seed, Run: uint64(run), Thorough: tier == "thorough", Trace: nil, Skip: skip, Violation: v,
-						Note: "process-level failure: not minimised; replay regenerates the run from (verif_seed, run)"}
-					path := fmt.Sprintf("%s/%s-%d-%d.json", outDir, prop, seed, run)
-					writeJSON(path, rf)
-					outs[w].crash = &workerViolation{Run: uint64(run), File: path, V: v}
-					break
+					if !raceBin {
+						wa = append(wa, "-aslimit", fmt.Sprint(uint64(24)<<30))
+					}
+					r := runChild(time.Duration(capS+400)*time.Second, bin, wa...)
+					var res workerResult
+					if r.exit == 0 && json.Unmarshal(r.stdout, &res) == nil && res.Stats != nil {
+						mergeResult(merged, &res, distinct, states)
+					} else {
+						kind, site := crashKind(r)
+						run, ok := readProgress(pf)
+						if kind == "" || !ok {
+							outs[w].err = fmt.Sprintf("worker %d: exit %d, no attributable crash\nstderr: %s\nstdout: %s", w, r.exit, tailStr(r.stderr, 3000), headStr(r.stdout, 500))
+							return
+						}
+						v := &simkit.Violation{Kind: kind, Site: site, Detail: tailStr(r.stderr, 2500)}
+						rf := &ReplayFile{Property: prop, VerifSeed: seed, Run: uint64(run), Thorough: tier == "thorough", Trace: nil, Skip: skip, Violation: v, Race: raceBin,
+							Note: "process-level failure: not minimised; replay regenerates the run from (verif_seed, run)"}
+						path := fmt.Sprintf("%s/%s-%d-%d.json", outDir, prop, seed, run)
+						writeJSON(path, rf)
+						outs[w].crash = &workerViolation{Run: uint64(run), File: path, V: v}
+						break
+					}
+					if len(res.Violations) > 0 || res.CapHit || limit >= runs {
+						break
+					}
+					first = limit
 				}
-				if len(res.Violations) > 0 || res.CapHit || limit >= runs {
-					break
-				}
-				first = limit
-			}
-			merged.Distinct = keysOf(distinct)
-			merged.States = keysOf(states)
-			outs[w].res = merged
-		}(w)
+				merged.Distinct = keysOf(distinct)
+				merged.States = keysOf(states)
+				outs[w].res = merged
+			}(w)
+		}
+		wg.Wait()
+		return outs
 	}
-	wg.Wait()
+	outs := runPhase(bin, cfg.Race, runs)
+	racePhaseRuns := int64(0)
+	if cfg.RacePhaseRuns > 0 && !cfg.Race {
+		// second phase: the same run indices under the -race build (checkptr
+		// instruments every unsafe conversion; no address-space limit there)
+		racePhaseRuns = int64(cfg.RacePhaseRuns)
+		if tier == "thorough" {
+			racePhaseRuns *= 10
+		}
+		if racePhaseRuns > runs {
+			racePhaseRuns = runs
+		}
+		outs = append(outs, runPhase(selfPath(true), true, racePhaseRuns)...)
+	}
 
 	// merge
 	total := simkit.NewStats()
@@ -390,7 +407,11 @@ func driverMain(args []string) int {
 		}
 		if o.crash != nil {
 			// confirm a process-level failure by re-executing that run alone
-			r := runChild(90*time.Second, bin, "replay-child", o.crash.File, filepath.Join(tmpDir, "confirm.progress"))
+			cbin := bin
+			if w >= nw {
+				cbin = selfPath(true)
+			}
+			r := runChild(90*time.Second, cbin, "replay-child", o.crash.File, filepath.Join(tmpDir, "confirm.progress"))
 			k, _ := crashKind(r)
 			if k == "" && r.exit != 1 {
 				fmt.Fprintf(os.Stderr, "HARNESS TROUBLE: worker %d died in run %d (%s) but the run alone is clean (exit %d)\n%s\n",
@@ -450,6 +471,7 @@ func driverMain(args []string) int {
 			"known_findings_reproduced": knownReproduced,
 			"wall_cap_hit":              all.CapHit,
 			"workers":                   nw,
+			"race_phase_runs":           racePhaseRuns,
 			"engine":                    cfg.EngineName,
 		},
 	}
@@ -544,7 +566,7 @@ func replayDriver(args []string) int {
 	}
 	tmp := filepath.Join(verifDir, ".build", fmt.Sprintf("replay-%d.progress", os.Getpid()))
 	defer os.Remove(tmp)
-	r := runChild(90*time.Second, selfPath(cfg.Race), "replay-child", path, tmp)
+	r := runChild(90*time.Second, selfPath(cfg.Race || rf.Race), "replay-child", path, tmp)
 	os.Stdout.Write(r.stdout)
 	if r.exit == 1 {
 		fmt.Printf("VIOLATION property=%s replay=%s\n", rf.Property, path)
